@@ -25,7 +25,7 @@ pub fn run(ctx: &mut Ctx) {
             }
         };
         let d = prep.flat.payoff_range();
-        let scale = prep.flat.max_abs_payoff().max(1e-300);
+        let scale = prep.flat.effective_scale().max(1e-300);
         let mut prev_bounds: Vec<f64> = Vec::new();
         for k in 0..5 {
             // long runs on small games: the bound falls like 1/sqrt(T), so a true regret that
@@ -87,6 +87,6 @@ pub fn run(ctx: &mut Ctx) {
     });
     ctx.finish(crate::report::extra(
         "cases = solve(Full, T, r, k, vanilla) calls on G1/G2 games: T in {1,2,3,5,10,30,100,300,1000} (and 10000 with k in {1,2,3,4} on games of <= 60 nodes, one case in sixteen), k in {1,2,3,4,8,16} (half of the parallel runs under schedule jitter), r in {0, multiples {0.5,1,1+1e-7,2,10} of bounds already observed on the same game, random fraction of the payoff range}. The returned profile is evaluated by O1; required: total bound >= true total regret - 1e-9*max|payoff| (only the total is a theorem; per-player comparison is not demanded), per-player bounds non-negative and not NaN, total = max, and a run ending below the threshold has true regret below it. distinct = hash(tree, configuration); non-trivial = game has a decision infoset.",
-        &["O1 as in C01", "tolerance 1e-9 x max|payoff| (observed slack on correct code is -1e-16)"],
+        &["O1 as in C01", "tolerance 1e-9 x min(max|payoff|, sum over terminals of chance reach x |payoff|) (observed slack on correct code is -1e-16)"],
     ));
 }
